@@ -100,7 +100,7 @@ STUB_E2 = ["rayon-core join / join_context / current_num_threads (vendored copy 
 ASSUME_E2 = [
     "sampling of schedules x worlds x scheduler decisions: a clean batch is evidence, not proof",
     "brood-internal code between two harness callbacks is atomic to the scheduler; overlap is judged structurally from the recorded fork/join tree (series-parallel paths), so one run covers all interleavings of its tree",
-    "the schedule catalogue is generated at build time (48 schedules, 171 tasks) because staging is decided by trait resolution",
+    "the schedule catalogue is generated at build time (48 schedules, 171 tasks) because staging is decided by trait resolution; schedules whose tasks view no resource (38 of the 48) also run on a world without resources",
     "the simulated join reproduces rayon's contract: both closures run to completion, a's panic wins",
 ]
 
@@ -159,7 +159,7 @@ PROPERTY_INFO = {
     "C10": info("exploration",
                 GEN_RULE + "non-trivial = a clone or clone_from followed by further operations on either side; distinct = distinct operation lists",
                 ["clone", "clone_from"],
-                ["clone", "clone_from", "clone_from_destination_has_extra_archetypes", "lockstep_mirrored_op", "drop_world"], crash="C10"),
+                ["clone", "clone_from", "clone_from_destination_has_extra_archetypes", "lockstep_mirrored_op", "drop_world", "world_has_more_than_64_archetypes"], crash="C10"),
     "C11": info("fault_enumeration",
                 "for each seeded small world (<= 14 operations) and one of five encodings (tokens human-readable, tokens compact, serde_json text, tokens compact with structs as plain sequences, serde_json through `Value` = fields in sorted order), one evaluation = one complete run deserializing the library's own output with one fault "
                 "(delete / duplicate / swap / truncate at every token or byte position, every defined alteration of every token, seeded moves) or a seeded double fault, "
@@ -169,7 +169,7 @@ PROPERTY_INFO = {
     "C13": info("exploration",
                 GEN_RULE + "the structural audit of the dump runs after every operation on every world; non-trivial = the history freed and reused slots or removed / created tables; distinct = distinct operation lists",
                 ["identifier_slot_reused", "shrink_to_fit", "clone_from", "clear", "entry_add_shape_change"],
-                ["identifier_slot_reused", "shrink_to_fit", "clone_from", "clear", "roundtrip_json", "roundtrip_tokens_compact", "extend_batch_smaller_than_free_list"], crash="C13"),
+                ["identifier_slot_reused", "shrink_to_fit", "clone_from", "clear", "roundtrip_json", "roundtrip_tokens_compact", "extend_batch_smaller_than_free_list", "world_has_more_than_64_archetypes"], crash="C13"),
     "C15": info("exploration",
                 GEN_RULE + "non-trivial = resources were viewed or written through at least one accessor; distinct = distinct operation lists",
                 ["view_resources", "get_mut_resource"],
@@ -190,11 +190,11 @@ E2_RULE = ("one evaluation = one simulated execution of run_schedule for one cat
            "scheduler configuration (pool size 1-64, strategy, steal rate, injected root, 1-2 repeats) with every decision drawn from the run seed, "
            "compared with sequential run_system/run_par_system calls on a clone; ")
 PROPERTY_INFO["C07"] = info2("exploration", E2_RULE + "non-trivial = the schedule changed the world and at least one fork was stolen or a task was started early as a run-time add-on; distinct = distinct (schedule, configuration, decision list)",
-                             ["schedule_changed_world"], ["schedule_changed_world", "run_with_steals", "run_time_add_on_started_early", "tasks_interleaved_in_time", "single_thread_pool", "emptied_archetype"], "C07")
+                             ["schedule_changed_world"], ["schedule_changed_world", "run_with_steals", "run_time_add_on_started_early", "tasks_interleaved_in_time", "single_thread_pool", "emptied_archetype", "world_without_resources"], "C07")
 PROPERTY_INFO["C08"] = info2("exploration", E2_RULE + "non-trivial = at least one pair of different tasks reached the same value with a write among them (the pair is then checked for fork/join ordering); distinct = distinct (schedule, configuration, decision list)",
                              ["conflicting_task_pairs_checked"], ["conflicting_task_pairs_checked", "run_time_add_on_started_early", "tasks_interleaved_in_time"], "C08")
 PROPERTY_INFO["C12"] = info2("exploration", E2_RULE + "non-trivial = the schedule has a greedy group of two or more independent tasks whose placement was checked, or ran on a single-thread pool; distinct = distinct (schedule, configuration, decision list)",
-                             ["independent_pair_parallel", "single_thread_pool"], ["independent_pair_parallel", "single_thread_pool", "empty_world", "world_without_archetypes", "schedule_has_parallel_group"], "C12")
+                             ["independent_pair_parallel", "single_thread_pool"], ["independent_pair_parallel", "single_thread_pool", "empty_world", "world_without_archetypes", "world_without_resources", "schedule_has_parallel_group"], "C12")
 
 PROPERTY_INFO["C09"] = info2("exploration",
     "one evaluation = one catalogue par_query (76 view/filter combinations) or one catalogue schedule containing ParSystems, on a seeded world (archetypes of length 0, 1, 2, 3, 7, 20, 60/300 incl. emptied ones), "
